@@ -390,6 +390,11 @@ type c05Case struct {
 	Seq   []int  `json:"seq,omitempty"`
 	R1    int    `json:"r1,omitempty"`
 	R2    int    `json:"r2,omitempty"`
+	Off   uint32 `json:"off,omitempty"`
+	Len   uint32 `json:"len,omitempty"`
+	Bad   int    `json:"bad,omitempty"`     // index (within the covered pages) of the page lacking access, -1 none
+	BadAc int    `json:"bad_acc,omitempty"` // its access: unmapped | inacc-present | R
+	Side  int    `json:"side,omitempty"`    // 0: the outer buffer has the bad page, 1: the inner buffer
 }
 
 type c05Finding struct{ site, kind, key, detail string }
@@ -1141,6 +1146,183 @@ func c05RunHist(r *vlib.Run, c c05Case) {
 	r.Eval()
 }
 
+// ---------------------------------------------------------------- ranges ---
+
+// c05RunRange: host-call buffer ranges. (a) isReadable / isWriteable directly against the model;
+// (b) the real peek / poke host calls copying between an outer buffer and an inner-machine buffer:
+// unaligned starts x lengths straddling 0..3 page boundaries x per-page access maps in which exactly
+// one covered page (first, middle or LAST) lacks the access the copy needs.
+//
+//	peek(n, o, s, z): inner [s, s+z) is read, outer [o, o+z) is written
+//	poke(n, s, o, z): outer [s, s+z) is read, inner [o, o+z) is written
+const (
+	c05ROuter = 0x40 // first page of the outer buffer
+	c05RInner = 0x50 // first page of the inner buffer
+)
+
+func c05RunRange(r *vlib.Run, c c05Case) {
+	op := "peek"
+	if c.Op == 1 {
+		op = "poke"
+	}
+	// which side is written
+	outerWritten := c.Op == 0
+	mk := func(base uint32, written bool, bad bool) *c05Model {
+		m := &c05Model{pages: map[uint32]*c05Page{}}
+		pat := 0
+		if base == c05RInner {
+			pat = 1
+		}
+		for i := uint32(0); i < 6; i++ {
+			acc := c05RW
+			if !written && i%2 == 1 {
+				acc = c05RO // a read buffer may as well be read-only
+			}
+			m.add(base+i, acc, pat)
+		}
+		if bad && c.Bad >= 0 {
+			pn := base + uint32(c.Bad)
+			delete(m.pages, pn)
+			m.add(pn, c.BadAc, pat)
+		}
+		return m
+	}
+	outerM := mk(c05ROuter, outerWritten, c.Side == 0)
+	innerM := mk(c05RInner, !outerWritten, c.Side == 1)
+	outer, innerMem := outerM.real(), innerM.real()
+	oAddr := uint64(c05ROuter*ZP + c.Off)
+	iAddr := uint64(c05RInner*ZP + c.Off)
+	z := uint64(c.Len)
+	key := fmt.Sprintf("%s;bad-page=%s", op, map[bool]string{true: "outer", false: "inner"}[c.Side == 0])
+	if c.Bad < 0 {
+		key = op + ";all-pages-accessible"
+	}
+	lastIdx := int((uint64(c.Off) + z - 1) / ZP)
+	pos := "none"
+	switch {
+	case c.Bad < 0:
+	case c.Bad == lastIdx && c.Bad == 0:
+		pos = "only"
+	case c.Bad == lastIdx:
+		pos = "last"
+	case c.Bad == 0:
+		pos = "first"
+	default:
+		pos = "middle"
+	}
+	key += ";position=" + pos
+	ctx := fmt.Sprintf("%s off=%d len=%d bad page %d (%s) on side %d", op, c.Off, c.Len, c.Bad, c05AccName[c.BadAc], c.Side)
+
+	// (a) the range predicates themselves
+	for _, q := range []struct {
+		name string
+		m    *c05Model
+		mem  *Memory
+		a    uint64
+	}{{"outer", outerM, outer, oAddr}, {"inner", innerM, innerMem, iAddr}} {
+		for _, wr := range []bool{false, true} {
+			want := true
+			for i := uint64(0); i < z; i++ {
+				pg := q.m.pages[uint32((q.a+i)/ZP)]
+				if pg == nil || !(pg.acc == c05RW || (!wr && pg.acc == c05RO)) {
+					want = false
+				}
+			}
+			var got bool
+			fn := "isReadable"
+			pnk, msg, gs := vlib.Guard(func() {
+				if wr {
+					got = isWriteable(q.a, z, *q.mem)
+				} else {
+					got = isReadable(q.a, z, *q.mem)
+				}
+			})
+			if wr {
+				fn = "isWriteable"
+			}
+			r.Transition()
+			r.Class(fmt.Sprintf("range %s want=%v pos=%s", fn, want, pos))
+			switch {
+			case pnk:
+				r.Violation(gs, "go-panic", "range-check", ctx+": "+msg, c)
+			case got && !want:
+				r.Violation(fn, "range-with-inaccessible-page-accepted", "position="+pos, fmt.Sprintf("%s: %s(%#x, %d) = true although a covered page lacks the access", ctx, fn, q.a, z), c)
+			case !got && want:
+				r.Violation(fn, "accessible-range-refused", "position="+pos, fmt.Sprintf("%s: %s(%#x, %d) = false", ctx, fn, q.a, z), c)
+			}
+		}
+	}
+
+	// (b) through the host call
+	m := IntegratedPVMMap{0: IntegratedPVMType{Memory: *innerMem}}
+	var regs Registers
+	if c.Op == 0 {
+		regs[7], regs[8], regs[9], regs[10] = 0, oAddr, iAddr, z
+	} else {
+		regs[7], regs[8], regs[9], regs[10] = 0, oAddr, iAddr, z
+	}
+	gas := Gas(1000)
+	in := OmegaInput{VM: &VMState{Registers: &regs, Memory: outer, Gas: &gas}, Addition: HostCallArgs{RefineArgs: RefineArgs{IntegratedPVMMap: m}}}
+	var out OmegaOutput
+	pnk, msg, gs := vlib.Guard(func() {
+		if c.Op == 0 {
+			out = peek(in)
+		} else {
+			out = poke(in)
+		}
+	})
+	r.Transition()
+	r.Eval()
+	if pnk {
+		r.Class(fmt.Sprintf("range %s go-panic", op))
+		r.Violation(gs, "go-panic", key, ctx+": "+msg, c)
+		return
+	}
+	srcM, dstM, srcA, dstA := innerM, outerM, iAddr, oAddr
+	if c.Op == 1 {
+		srcM, dstM, srcA, dstA = outerM, innerM, oAddr, iAddr
+	}
+	permitted := true
+	for i := uint64(0); i < z; i++ {
+		sp := srcM.pages[uint32((srcA+i)/ZP)]
+		dp := dstM.pages[uint32((dstA+i)/ZP)]
+		if sp == nil || (sp.acc != c05RO && sp.acc != c05RW) || dp == nil || dp.acc != c05RW {
+			permitted = false
+		}
+	}
+	okRes := out.ExitReason == ExitContinue && regs[7] == OK
+	r.Class(fmt.Sprintf("range %s permitted=%v ok=%v pos=%s", op, permitted, okRes, pos))
+	innerAfter := m[0].Memory
+	expOuter, expInner := outerM, innerM
+	if okRes {
+		if !permitted {
+			kind := "host-call-writes-non-writable-page"
+			if (c.Side == 0) != outerWritten {
+				kind = "host-call-reads-non-readable-page"
+			}
+			r.Violation(op, kind, key, ctx+": the call answers OK", c)
+			return
+		}
+		d := dstM.clone()
+		for i := uint64(0); i < z; i++ {
+			sa, da := srcA+i, dstA+i
+			d.pages[uint32(da/ZP)].data[da%ZP] = srcM.pages[uint32(sa/ZP)].data[sa%ZP]
+		}
+		if c.Op == 0 {
+			expOuter = d
+		} else {
+			expInner = d
+		}
+	}
+	// refused (or OK): everything outside the permitted copy is unchanged
+	if dd := expOuter.diff(outer); dd != "" {
+		r.Violation(op, "outer-memory-wrong-after-host-call", key, ctx+": "+dd, c)
+	}
+	if dd := expInner.diff(&innerAfter); dd != "" {
+		r.Violation(op, "inner-memory-wrong-after-host-call", key, ctx+": "+dd, c)
+	}
+}
+
 // ---------------------------------------------------------------- main -----
 
 func TestVerif_C05(t *testing.T) {
@@ -1160,6 +1342,8 @@ func TestVerif_C05(t *testing.T) {
 			c05RunPages(r, rc)
 		case "hist":
 			c05RunHist(r, rc)
+		case "range":
+			c05RunRange(r, rc)
 		}
 		return
 	}
@@ -1209,6 +1393,33 @@ func TestVerif_C05(t *testing.T) {
 			}
 			r.Space(1)
 			c05RunPages(r, c05Case{Fam: "pages", R1: r1, R2: r2})
+		}
+	}
+	// (5) host-call buffer ranges (isReadable / isWriteable, peek, poke)
+	for opi := 0; opi < 2; opi++ {
+		for _, off := range []uint32{0, 1, 2048, 4095} {
+			for _, ln := range []uint32{1, 2, 4095, 4096, 4097, 8191, 8192, 8193, 12288, 12289} {
+				last := int((uint64(off) + uint64(ln) - 1) / ZP)
+				for bad := -1; bad <= last; bad++ {
+					for _, ba := range []int{c05Unmapped, c05Present, c05RO} {
+						for side := 0; side < 2; side++ {
+							if bad < 0 && (ba != c05Unmapped || side != 0) {
+								continue
+							}
+							// R is only a lack of access on the side that is written
+							if bad >= 0 && ba == c05RO && (side == 0) != (opi == 0) {
+								continue
+							}
+							idx++
+							if !r.Mine(idx) {
+								continue
+							}
+							r.Space(1)
+							c05RunRange(r, c05Case{Fam: "range", Op: opi, Off: off, Len: ln, Bad: bad, BadAc: ba, Side: side})
+						}
+					}
+				}
+			}
 		}
 	}
 	// (4) inner-machine histories through machine / pages / invoke
